@@ -144,7 +144,12 @@ class Trace:
                 f = canon.diff_D(i, m)
                 if f:
                     rec = dict(index=idx, kind="dump", ep=self.last_ep, fields=f)
-                    self.diverged = True
+                    # the two states differ.  If some property owns the difference the comparison of this trace
+                    # ends here (everything later is a consequence); a difference no property speaks about (for
+                    # instance dead storage left behind) must not hide later, independent disagreements
+                    from . import props as _props
+                    if any(_props.relevant(pid, rec) for pid in _props.PROPS):
+                        self.diverged = True
             else:
                 f = canon.diff_R(i, m, self.ctx)
                 if f:
@@ -321,6 +326,10 @@ class Life:
             if r.chance(1, 4):
                 self.fee = r.pick([2, 9])
                 t.call(OWNER, "setNftCost", [self.feetok, 0, self.fee])
+            if r.chance(1, 3):
+                # invalid costs (probes): EGLD with a nonce, zero amount, the launchpad token, an invalid identifier
+                bad = r.pick([[0, 1, 5], [self.feetok, 0, 0], [LP_TOK, 0, 5], [1, 0, 5], [0, 0, 0]])
+                t.call(OWNER, "setNftCost", bad, probe=True)
         t.dump()
 
     def set_schedule1(self):
